@@ -4,7 +4,9 @@
    away a path under cas/; the only calls naming a CAS path are `rename staging -> cas` and `unlink`. *)
 From Cas Require Import History Inode.
 From CasProofs Require Import StoreFS StoreInv StoreWrite StoreRead StoreHist.
-From CasProofs Require CrashInv CrashCas InodeProofs.
+From CasProofs Require CrashInv CrashCas InodeProofs SMapProofs ConcInv.
+From Cas Require Conc.
+From CasProps Require ConcSetting.
 
 Theorem C06_cas_immutable :
   forall H : bytes -> bytes,
@@ -61,6 +63,28 @@ Print Assumptions C06_every_crash_point.
    recorded trace oldest first; iread = what a descriptor on that inode reads; ilookup = the
    inode a name denotes; abs_i = the content visible under a name).
    --------------------------------------------------------------------------------------------- *)
+
+
+(* under concurrency: in the concurrent model a blob's bytes never change while it exists, and a
+   blob that reappears after a removal has the same bytes - between ANY two reachable states, for
+   every schedule and every number of threads (the content under a hash is determined by the hash) *)
+Theorem C06_blob_content_is_fixed_concurrent :
+  forall H cmp nops bad ckbad thr0 cas0, ConcSetting.ConcSetting H cmp thr0 cas0 ->
+  forall g g', ConcInv.reachable H cmp nops bad ckbad thr0 cas0 g ->
+               ConcInv.reachable H cmp nops bad ckbad thr0 cas0 g' ->
+  forall h c c', sm_get lex_cmp (Conc.g_cas g) h = Some c -> sm_get lex_cmp (Conc.g_cas g') h = Some c' ->
+    c = c' /\ H c = h.
+Proof.
+  intros H cmp nops bad ckbad thr0 cas0 (A & B & C & D & E & F & G & I) g g' R R' h c c' G1 G2.
+  pose proof (ConcInv.reachable_inv H cmp A B C D nops bad ckbad thr0 E cas0 F G I g R) as V.
+  pose proof (ConcInv.reachable_inv H cmp A B C D nops bad ckbad thr0 E cas0 F G I g' R') as V'.
+  apply (SMapProofs.lex_get_in _ _ _ (ConcInv.ci_cas_sorted _ _ _ _ _ _ V)) in G1.
+  apply (SMapProofs.lex_get_in _ _ _ (ConcInv.ci_cas_sorted _ _ _ _ _ _ V')) in G2.
+  destruct (ConcInv.ci_cas_named _ _ _ _ _ _ V _ _ G1) as [E1 M1].
+  destruct (ConcInv.ci_cas_named _ _ _ _ _ _ V' _ _ G2) as [E2 M2].
+  split; [|exact E1]. apply I; [exact M1|exact M2|congruence].
+Qed.
+Print Assumptions C06_blob_content_is_fixed_concurrent.
 
 (* the inode model is the same filesystem as FS.v, seen through names: along the recorded
    trace of any history of data-API calls (any fault plan) both show the same content under
